@@ -3,7 +3,7 @@ From Coq Require Import List NArith ZArith Bool.
 Import ListNotations.
 From SAV.base Require Import Tree.
 From SAV.util Require Import Topo Cycles TopoRun.
-From SAV.orm Require Import FlushOrder FlushOrderSpec FlushOrderBase FlushOrderCover.
+From SAV.orm Require Import FlushOrder FlushOrderSpec.
 Local Open Scope N_scope.
 
 Definition as_trip (t : tree) : option trip :=
@@ -104,7 +104,8 @@ Definition ev_eqb (a b : ev) : bool :=
 Definition trivial_stmt (s : stmt) : bool := match s with Update _ [] => true | _ => false end.
 
 (* input  L [deps; states; links; ref0; ref1; sec0; sec1; notnull; trace; I mode]
-     mode 0: unit-of-work level only (the flush failed: no final state, partial trace)
+     mode 0: unit-of-work level only (CircularDependencyError: no final state, no trace)
+     mode 3: as 0, the flush failed in an early layer: the outcome of the sort is not compared
      mode 1: + trace acceptance, the trace executed on the reference database, the static statement
              contents compared with the emitted ones
      mode 2: as 1, and the hypotheses of the theorems are expected to hold
@@ -126,7 +127,7 @@ Definition run_with (T : tables) (t : tree) : tree :=
         let head := [of_list of_N (sort_nodes (dedup cy)); of_list of_N items; of_list of_pair edges] in
         match plan T g with
         | Layers layers =>
-          if Z.eqb mode 0 then L (I 0 :: head)
+          if Z.eqb mode 0 || Z.eqb mode 3 then L (I 0 :: head)
           else
             let evs := map fst tr in
             (* an UPDATE of post_update columns may also come from the regular save, when the process
@@ -141,7 +142,7 @@ Definition run_with (T : tables) (t : tree) : tree :=
             L (I 0 :: head ++ [of_bool acc; of_bool ex;
                                if hyp then of_nat mism else I 0; if hyp then of_nat missing else I 0;
                                if Z.eqb mode 2 then of_bool hyp else I 0])
-        | PCircular => L (I 1 :: head)
+        | PCircular => if Z.eqb mode 3 then L (I 0 :: head) else L (I 1 :: head)
         | PFuel => L [I 2]
         | PAssert => L (I 3 :: head)
         end
